@@ -244,6 +244,25 @@ func c03Scenarios(tier string) []*world.Scenario {
 			}
 		}
 	}
+	// (i) a client is closed by the proxy (valid request + garbage in one segment, QUIT right behind a request) while its
+	// fragment is still waiting to be written to the node; other clients then use the same node connection: every one of
+	// them gets its own reply
+	for _, how := range []string{"garbage", "inline", "zero-count"} {
+		for _, first := range []string{"get", "mget"} {
+			var v Req
+			if first == "get" {
+				v = GetReq(keysA[0])
+			} else {
+				v = MGetReq(keysA[0], keysB[0])
+			}
+			junk := map[string]string{"garbage": "\x00\x01garbage\r\n", "inline": "PING\r\n", "zero-count": "*0\r\n"}[how]
+			off := world.ClientSpec{Chunks: []world.Chunk{{Data: append(append([]byte{}, v.Bytes...), junk...)}}, Reqs: [][]byte{v.Bytes}, Expect: [][]byte{v.Expect}}
+			w1 := ClientOf([]Req{GetReq(keysA[1]), GetReq(keysB[1]), GetReq(keysA[2])}, false)
+			w2 := ClientOf([]Req{GetReq(keysA[3])}, true)
+			sc := &world.Scenario{Nodes: T3m(), Bound: b, Clients: []world.ClientSpec{off, w1, w2}}
+			mk(fmt.Sprintf("closed-with-unwritten-fragment/%s+%s", first, how), "client-close", sc)
+		}
+	}
 	// (f) backend connections that start with a handshake (AUTH and/or READONLY): the handshake replies under every
 	// segmentation with <= 2 cuts; none of them may surface as the reply to a client's request
 	for mask := 0; mask < 512; mask++ {
